@@ -95,6 +95,12 @@ class Ctx:
         except AnchorMissing as e:
             self.violation(rule, "anchor-missing:%s" % fn.__name__, "", "",
                            "anchor missing, rule fails closed: %s" % e)
+        except Exception as e:  # noqa: BLE001 - any analysis failure must fail the rule closed
+            import traceback
+            tb = traceback.format_exc().strip().splitlines()
+            self.violation(rule, "analysis-failed:%s" % fn.__name__, "", "",
+                           "the analysis could not handle the current code, rule fails closed: %s: %s [%s]"
+                           % (type(e).__name__, e, tb[-3].strip() if len(tb) >= 3 else ""))
         return None
 
 
